@@ -41,6 +41,11 @@ def run(P: Program, rep: Report):
                         "words that are the bare word `and`, or contain `~`-joined `and` (not valid single names for the separator)",
                         "BibTeX's 13 built-in control sequences"]
     rep.assume("the writer and the splitter preserve the enclosed value text (C05), so the whole-stack route reduces to the middleware chain")
+    # decided first: it is cheap, and a cache between the tables' calls is what the tables below cannot see through
+    rep.rule("C14.R9", "no unsafe memoisation in the modules this property rests on: a function decorated with lru_cache / cache / "
+                      "cached_property neither takes nor returns a mutable object (else later calls see stale or shared results)")
+    from . import common as _common
+    _common.no_unsafe_memoisation(P, rep, "C14.R9", ['middlewares.names', 'entrypoint'])
     parse = P.func("middlewares.names", "parse_single_name_into_parts")
     np_cls = P.cls("middlewares.names", "NameParts")
     pats = patterns(rep.tier)
@@ -188,7 +193,3 @@ def run(P: Program, rep: Report):
                       f"middlewares given as a {kind}: {v!r:.600}; expected three persons, the line `author = {{Author, Ann and de la Cruz, Maria and {{Barnes and Noble}}}}` "
                       f"in the written text and the same persons after re-parsing")
 
-    rep.rule("C14.R9", "no unsafe memoisation in the modules this property rests on: a function decorated with lru_cache / cache / "
-                      "cached_property neither takes nor returns a mutable object (else later calls see stale or shared results)")
-    from . import common as _common
-    _common.no_unsafe_memoisation(P, rep, "C14.R9", ['middlewares.names', 'entrypoint'])
